@@ -35,6 +35,8 @@ pub enum Ev {
     RunBg(u8),
     /// 0 = T/2, 1 = 2T
     Tick(u8),
+    /// macro step: Respond(r), Poll(r), ConnReady(c), RunBg(hand-back task) in one transition
+    Finish(u8),
 }
 
 impl Ev {
@@ -53,6 +55,7 @@ impl Ev {
             Ev::Upgrade(c) => format!("Upgrade(c{c})"),
             Ev::RunBg(t) => format!("RunBg(t{t})"),
             Ev::Tick(k) => format!("Tick({})", if k == 0 { "T/2" } else { "2T" }),
+            Ev::Finish(r) => format!("Finish(r{r})"),
         }
     }
     pub fn parse(s: &str) -> Option<Ev> {
@@ -76,6 +79,7 @@ impl Ev {
             "Upgrade" => Ev::Upgrade(num("c")?),
             "RunBg" => Ev::RunBg(num("t")?),
             "Tick" => Ev::Tick(if arg == "T/2" { 0 } else { 1 }),
+            "Finish" => Ev::Finish(num("r")?),
             _ => return None,
         })
     }
@@ -172,6 +176,8 @@ pub struct SimConfig {
     pub burst: bool,
     /// bound on the history length (None = search to fixpoint)
     pub max_depth: Option<usize>,
+    /// replace Respond / ConnReady / hand-back task steps by the macro step Finish(r)
+    pub macro_finish: bool,
 }
 
 impl SimConfig {
@@ -194,6 +200,7 @@ impl SimConfig {
             max_ticks: 0,
             burst: false,
             max_depth: None,
+            macro_finish: false,
         }
     }
     pub fn describe(&self) -> String {
@@ -202,7 +209,7 @@ impl SimConfig {
             self.name, self.max_requests, self.origins, self.allow_h1, self.allow_h2, self.continue_after_preemption,
             self.max_idle_per_host, self.idle_timeout, self.split_handshake, self.strict_is_open, self.ev_cancel,
             self.ev_dial_fail, self.ev_close, self.ev_upgrade, self.max_ticks, if self.burst { " burst" } else { "" }
-        ) + &self.max_depth.map(|d| format!(" depth<={d}")).unwrap_or_else(|| " to-fixpoint".into())
+        ) + if self.macro_finish { " macro-finish" } else { "" } + &self.max_depth.map(|d| format!(" depth<={d}")).unwrap_or_else(|| " to-fixpoint".into())
     }
 }
 
@@ -216,6 +223,12 @@ pub struct StepReport {
     pub new_handoffs: Vec<usize>,
     pub spawned: Vec<usize>,
     pub poll_result: Option<String>,
+    /// connections that entered an idle list in this step
+    pub new_idle: Vec<usize>,
+    /// (conn, background task) pairs: readiness polled by a background task in this step
+    pub bg_ready_polls: Vec<(usize, u8)>,
+    /// background tasks that finished in this step
+    pub bg_done: Vec<u8>,
 }
 
 pub struct Sim {
@@ -305,12 +318,30 @@ impl Sim {
         snap.keys.iter().find(|(k, _)| *k == want).map(|(_, t)| *t)
     }
 
+    /// enabled events of the un-abbreviated alphabet
+    pub fn enabled_raw(&self) -> Vec<Ev> {
+        if !self.cfg.macro_finish {
+            return self.enabled();
+        }
+        let mut c = self.cfg.clone();
+        c.macro_finish = false;
+        self.enabled_with(&c)
+    }
+
     pub fn enabled(&self) -> Vec<Ev> {
+        let v = self.enabled_with(&self.cfg);
+        if self.cfg.macro_finish {
+            // the macro step subsumes these
+            return v.into_iter().filter(|e| !matches!(e, Ev::ConnReady(_)) && !matches!(e, Ev::RunBg(t) if self.bgs[*t as usize].kind() == "when-ready")).collect();
+        }
+        v
+    }
+
+    fn enabled_with(&self, cfg: &SimConfig) -> Vec<Ev> {
         let mut v = vec![];
         if self.panicked.is_some() {
             return v;
         }
-        let cfg = &self.cfg;
         let issued = self.reqs.iter().filter(|r| !r.is_probe).count();
         if issued < cfg.max_requests && !self.draining {
             for o in 0..cfg.origins.len() as u8 {
@@ -358,7 +389,7 @@ impl Sim {
             }
             for x in w.exchanges.iter() {
                 if !x.responded && !x.dropped {
-                    v.push(Ev::Respond(x.req));
+                    v.push(if cfg.macro_finish { Ev::Finish(x.req) } else { Ev::Respond(x.req) });
                 }
             }
             for (i, c) in w.conns.iter().enumerate() {
@@ -398,7 +429,7 @@ impl Sim {
             .filter(|e| {
                 matches!(
                     e,
-                    Ev::Poll(_) | Ev::RunBg(_) | Ev::DialOk(_) | Ev::HsOk(_) | Ev::Respond(_) | Ev::ConnReady(_)
+                    Ev::Poll(_) | Ev::RunBg(_) | Ev::DialOk(_) | Ev::HsOk(_) | Ev::Respond(_) | Ev::ConnReady(_) | Ev::Finish(_)
                 )
             })
             .collect()
@@ -629,6 +660,44 @@ impl Sim {
                     }
                 }
             }
+            Ev::Finish(r) => {
+                // expand into the ordinary events; each is applied through the normal path
+                self.history.pop();
+                let hist_len = self.history.len();
+                let mut subs = vec![Ev::Respond(r), Ev::Poll(r)];
+                let conn = world::with(|w| w.exchanges.iter().find(|x| x.req == r && !x.responded && !x.dropped).map(|x| x.conn));
+                if let Some(c) = conn {
+                    subs.push(Ev::ConnReady(c as u8));
+                }
+                let mut merged = StepReport::default();
+                for sub in subs {
+                    if !self.enabled_raw().contains(&sub) {
+                        continue;
+                    }
+                    let r2 = self.apply(sub);
+                    merged.obs.extend(r2.obs);
+                    merged.new_dials.extend(r2.new_dials);
+                    merged.new_handoffs.extend(r2.new_handoffs);
+                    merged.spawned.extend(r2.spawned);
+                    merged.new_idle.extend(r2.new_idle);
+                }
+                // run the hand-back task(s) that are now runnable
+                loop {
+                    let next = self.enabled_raw().into_iter().find(|e| matches!(e, Ev::RunBg(t) if self.bgs[*t as usize].kind() == "when-ready"));
+                    let Some(e2) = next else { break };
+                    let r2 = self.apply(e2);
+                    merged.obs.extend(r2.obs);
+                    merged.new_idle.extend(r2.new_idle);
+                    merged.bg_ready_polls.extend(r2.bg_ready_polls);
+                    merged.bg_done.extend(r2.bg_done);
+                    merged.new_handoffs.extend(r2.new_handoffs);
+                    merged.new_dials.extend(r2.new_dials);
+                    merged.spawned.extend(r2.spawned);
+                }
+                self.history.truncate(hist_len);
+                self.history.push(e);
+                return merged;
+            }
             Ev::Tick(k) => {
                 self.ticks_used += 1;
                 let half = if k == 0 { 1 } else { 4 };
@@ -640,7 +709,15 @@ impl Sim {
         self.collect_spawned(actor, &mut rep);
         // bookkeeping derived from diffs
         let post_snap = self.snapshot();
-        self.track(&pre_snap, &post_snap, e, n_conns);
+        self.track(&pre_snap, &post_snap, e, n_conns, &mut rep);
+        world::with(|w| {
+            rep.bg_ready_polls = w.ready_polls.iter().filter_map(|(c, a)| if let Actor::Bg(t) = a { Some((*c, *t)) } else { None }).collect();
+        });
+        if let Ev::RunBg(t) = e {
+            if self.bgs[t as usize].task.is_none() {
+                rep.bg_done.push(t);
+            }
+        }
         self.snap = post_snap;
         world::with(|w| {
             rep.new_dials = (n_dials..w.dials.len()).collect();
@@ -677,7 +754,7 @@ impl Sim {
     }
 
     /// Maintain `waiter_log`, `inbox`, `ever_pooled`, `last_handback_step` from before/after snapshots.
-    fn track(&mut self, pre: &hooks::PoolSnapshot, post: &hooks::PoolSnapshot, e: Ev, n_conns_before: usize) {
+    fn track(&mut self, pre: &hooks::PoolSnapshot, post: &hooks::PoolSnapshot, e: Ev, n_conns_before: usize, rep: &mut StepReport) {
         // 1. waiter log: an Issue whose request did not get an idle connection enqueued a waiter;
         //    one that did holds the popped entry in its checkout
         if let Ev::Issue { o, .. } = e {
@@ -727,6 +804,7 @@ impl Sim {
                         w.conns[c].ever_pooled = true;
                         w.conns[c].last_handback_step = Some(step);
                     });
+                    rep.new_idle.push(c);
                 }
             }
         }
